@@ -7,7 +7,10 @@ OPS = {"c03": {"set_must", "set_opt_existing"}, "c04": {"delete"}}["c03"]
 
 def run(ctx):
     ops = {"set_must"} if "c03" == "c03" else {"delete"}
-    editobs.run_histories(ctx, ops, "C03", ["MC_Edit_q.cfg"] if ctx.quick else ["MC_Edit_t.cfg"])
+    # MC_Edit_alias: one alias_nodes step (beyond the listed properties: counted only), then a set on the document it left -
+    # aliases made at run time must follow a set exactly like aliases that were loaded
+    editobs.run_histories(ctx, ops, "C03", ["MC_Edit_q.cfg", "MC_Edit_alias.cfg"] if ctx.quick else ["MC_Edit_t.cfg", "MC_Edit_alias.cfg"],
+                          info_ops={"alias"})
     editobs.random_histories(ctx, "C03", 600 if ctx.quick else 6000, 8)
 
 
